@@ -86,6 +86,118 @@ let brute_of (types : int list) : brute_oracle =
       | [] :: t -> find (i + 1) t in
     nat_of_int (find 0 cands)
 
+let spec_color_of (img : image) : spec_color =
+  match img.hdr.ctype with
+  | Gray k -> SGray k
+  | RGB k -> SRGB k
+  | Indexed p -> SIndexed p
+  | GrayAlpha -> SGrayAlpha
+  | RGBA -> SRGBA
+let sem_of_img (img : image) =
+  spec_sem img.hdr.width img.hdr.height (spec_color_of img) img.hdr.depth img.hdr.interlaced img.data
+let pic_hex (p : picture) =
+  let b = Buffer.create 1024 in
+  List.iter (List.iter (fun (((r, g), bl), a) ->
+      Buffer.add_string b (Printf.sprintf "%04x%04x%04x%04x" (int_of_z r) (int_of_z g) (int_of_z bl) (int_of_z a)))) p.pic_px;
+  Buffer.contents b
+
+(* ------------------------------------------------------------ options *)
+let names_of s = if s = "" then [] else List.map unhex (split_on '+' s)
+let parse_opts tok : options =
+  let o = ref default_options in
+  if tok <> "-" then
+    List.iter (fun kv ->
+        match String.index_opt kv '=' with
+        | None -> failwith "bad opt"
+        | Some i ->
+          let k = String.sub kv 0 i and v = String.sub kv (i + 1) (String.length kv - i - 1) in
+          let b = (v = "1") in
+          let c = !o in
+          o := (match k with
+              | "preset" -> from_preset (z_of_int (int_of_string v))
+              | "fix" -> { c with fix_errors = b }
+              | "force" -> { c with force = b }
+              | "filters" -> { c with filter0 = (if v = "" then [] else List.map (fun x -> filter_of (int_of_string x)) (split_on '+' v)) }
+              | "interlace" -> { c with interlace = (match v with "keep" -> None | "0" -> Some false | _ -> Some true) }
+              | "alpha" -> { c with optimize_alpha = b }
+              | "bd" -> { c with bit_depth_reduction = b }
+              | "ct" -> { c with color_type_reduction = b }
+              | "pal" -> { c with palette_reduction = b }
+              | "gray" -> { c with grayscale_reduction = b }
+              | "recode" -> { c with idat_recoding = b }
+              | "scale16" -> { c with scale_16 = b }
+              | "strip" ->
+                let pre p = String.length v > String.length p && String.sub v 0 (String.length p) = p in
+                let suf p = String.sub v (String.length p) (String.length v - String.length p) in
+                { c with strip = (if v = "none" then StripNone else if v = "safe" then StripSafe else if v = "all" then StripAll
+                                  else if pre "strip:" then StripStrip (names_of (suf "strip:"))
+                                  else if pre "keep:" then StripKeep (names_of (suf "keep:"))
+                                  else if v = "strip:" then StripStrip [] else if v = "keep:" then StripKeep []
+                                  else failwith "bad strip") }
+              | "zc" -> { c with deflate = Libdeflater (z_of_int (int_of_string v)) }
+              | "zopfli" -> { c with deflate = Zopfli (z_of_int (int_of_string v)) }
+              | "fast" -> { c with fast_evaluation = b }
+              | "timeout" -> { c with has_timeout = (v <> "-") }
+              | _ -> failwith ("bad option key " ^ k)))
+      (split_on ',' tok);
+  !o
+
+let fmt_deflater = function
+  | Libdeflater c -> Printf.sprintf "zc=%d" (int_of_z c)
+  | Zopfli i -> Printf.sprintf "zopfli=%d" (int_of_z i)
+
+let fmt_opts (o : options) =
+  let names l = String.concat "+" (List.map hex l) in
+  Printf.sprintf "fix=%d,force=%d,filters=%s,interlace=%s,alpha=%d,bd=%d,ct=%d,pal=%d,gray=%d,recode=%d,scale16=%d,strip=%s,%s,fast=%d,timeout=%s"
+    (Bool.to_int o.fix_errors) (Bool.to_int o.force)
+    (String.concat "+" (List.map (fun f -> string_of_int (int_of_z (filter_code f))) o.filter0))
+    (match o.interlace with None -> "keep" | Some false -> "0" | Some true -> "1")
+    (Bool.to_int o.optimize_alpha) (Bool.to_int o.bit_depth_reduction) (Bool.to_int o.color_type_reduction)
+    (Bool.to_int o.palette_reduction) (Bool.to_int o.grayscale_reduction) (Bool.to_int o.idat_recoding)
+    (Bool.to_int o.scale_16)
+    (match o.strip with StripNone -> "none" | StripSafe -> "safe" | StripAll -> "all"
+                      | StripStrip l -> "strip:" ^ names l | StripKeep l -> "keep:" ^ names l)
+    (fmt_deflater o.deflate) (Bool.to_int o.fast_evaluation) (if o.has_timeout then "1" else "-")
+
+(* ------------------------------------------------------------ oracle environment from records *)
+exception Oracle_miss of string
+
+let split_records (t : string array) (from : int) : string list list =
+  let recs = ref [] and cur = ref [] in
+  for i = from to Array.length t - 1 do
+    if t.(i) = "|" then (if !cur <> [] then recs := List.rev !cur :: !recs; cur := [])
+    else cur := t.(i) :: !cur
+  done;
+  if !cur <> [] then recs := List.rev !cur :: !recs;
+  List.rev !recs
+
+let env_of_records (recs : string list list) (dlf : site -> bool) : env =
+  let dt = Hashtbl.create 64 and it = Hashtbl.create 16 and bt = Hashtbl.create 16 in
+  List.iter (function
+      | ["D"; d; x; y] -> Hashtbl.replace dt (d, x) y
+      | ["I"; n; x; y] -> Hashtbl.replace it (n, x) y
+      | ["B"; a; tok; types] -> Hashtbl.replace bt (a, tok) types
+      | _ -> ()) recs;
+  { z_deflate = (fun d x ->
+        let k = (fmt_deflater d, hex x) in
+        match Hashtbl.find_opt dt k with
+        | Some "err" -> raise (Oracle_miss "deflate-err")
+        | Some y -> unhex y
+        | None -> raise (Oracle_miss ("deflate " ^ fst k ^ " " ^ (let h = snd k in if String.length h > 80 then String.sub h 0 80 else h))));
+    z_inflate = (fun x n ->
+        match Hashtbl.find_opt it (string_of_int (int_of_z n), hex x) with
+        | Some r ->
+          if String.length r >= 3 && String.sub r 0 3 = "ok:" then Ok (unhex (String.sub r 3 (String.length r - 3)))
+          else (match r with
+              | "err:invaliddata" -> Err EInvalidData
+              | _ -> Err EOther)
+        | None -> raise (Oracle_miss "inflate"));
+    e_brute = (fun img alpha row cands ->
+        match Hashtbl.find_opt bt ((if alpha then "1" else "0"), fmt_img img) with
+        | Some types -> brute_of (List.init (String.length types) (fun i -> Char.code types.[i] - 48)) row cands
+        | None -> raise (Oracle_miss "brute"));
+    dl = dlf }
+
 let run (t : string array) : string =
   match t.(0) with
   | "paeth_digest" ->
@@ -122,6 +234,31 @@ let run (t : string array) : string =
                 (match l.l_pass with None -> "-" | Some p -> string_of_int (int_of_z p))
                 (int_of_z l.l_npix)) ls))
       (scan_lines img hf)
+  | "reduce" ->
+    let img = parse_img t.(2) in
+    let flag = Array.length t > 3 && t.(3) = "1" in
+    let flag2 = Array.length t > 4 && t.(4) = "1" in
+    let opt = function Some i -> "some " ^ fmt_img i | None -> "none" in
+    let ropt = function Ok o -> opt o | Err e -> "err " ^ err_kind e | Panic p -> "panic " ^ panic_kind p in
+    (match t.(1) with
+     | "16to8" -> opt (reduced_bit_depth_16_to_8 img flag)
+     | "scale16" -> opt (scaled_bit_depth_16_to_8 img)
+     | "8orless" -> ropt (reduced_bit_depth_8_or_less img)
+     | "expand8" -> ropt (expanded_bit_depth_to_8 img)
+     | "rgb2gray" -> opt (reduced_rgb_to_grayscale img)
+     | "alpha" -> opt (reduced_alpha_channel img flag)
+     | "cleanalpha" -> opt (cleaned_alpha_channel img)
+     | "toindexed" -> opt (reduced_to_indexed img flag)
+     | "tochannels" -> opt (indexed_to_channels img flag flag2)
+     | "palette" -> opt (reduced_palette img flag)
+     | "sortpal" -> ropt (sorted_palette img)
+     | "battiato" -> ropt (sorted_palette_battiato img)
+     | "mzeng" -> ropt (sorted_palette_mzeng img)
+     | _ -> failwith "unknown reduction")
+  | "scale8_all" ->
+    let b = Buffer.create 131072 in
+    for v = 0 to 65535 do Buffer.add_string b (Printf.sprintf "%02x" (int_of_z (scale_16_to_8 (z_of_int v)))) done;
+    "ok " ^ Buffer.contents b
   | "raw_data_size" -> Printf.sprintf "ok %d" (int_of_z (raw_data_size (parse_img t.(1)).hdr))
   | "interlace" -> res_str fmt_img (interlace_image (parse_img t.(1)))
   | "deinterlace" -> res_str fmt_img (deinterlace_image (parse_img t.(1)))
@@ -137,6 +274,54 @@ let run (t : string array) : string =
     (match spec_image_pixels (z_of_int (int_of_string t.(1))) (z_of_int (int_of_string t.(2))) (z_of_int (int_of_string t.(3))) (t.(4) = "1") (unhex t.(5)) with
      | None -> "none"
      | Some rows -> "ok " ^ String.concat ";" (List.map (fun r -> String.concat "," (List.map (fun px -> string_of_int (int_of_z (sval px))) r)) rows))
+  | "opt_replay" ->
+    let o = parse_opts t.(1) in
+    let recs = split_records t 4 in
+    let env = env_of_records recs (fun _ -> false) in
+    (try res_str hex (optimize_from_memory env o (unhex t.(3)))
+     with Oracle_miss m -> "oracle-miss " ^ m)
+  | "preset" -> "ok " ^ fmt_opts (from_preset (z_of_int (int_of_string t.(1))))
+  | "default_opts" -> "ok " ^ fmt_opts default_options
+  | "crc32" -> Printf.sprintf "ok %d" (int_of_z (crc32 (unhex t.(1))))
+  | "keep" -> Printf.sprintf "ok %d" (Bool.to_int (strip_keep (parse_opts ("strip=" ^ t.(1))).strip (unhex t.(2))))
+  | "is_c2pa" -> Printf.sprintf "ok %d" (Bool.to_int (is_c2pa (unhex t.(1)) (unhex t.(2))))
+  | "fully_optimized" ->
+    Printf.sprintf "ok %d" (Bool.to_int (is_fully_optimized (z_of_int (int_of_string t.(1))) (z_of_int (int_of_string t.(2))) (parse_opts t.(3))))
+  | "srgb_intent" -> (match srgb_rendering_intent (unhex t.(1)) with Some i -> Printf.sprintf "ok %d" (int_of_z i) | None -> "none")
+  (* the img token carries the inflated (still filtered) IDAT stream *)
+  | "spec_decode_stream" ->
+    let i = parse_img t.(1) in
+    (match spec_decode_stream i.hdr.width i.hdr.height (spec_color_of i) i.hdr.depth i.hdr.interlaced i.data with
+     | None -> "none"
+     | Some p -> Printf.sprintf "ok %dx%d %s" (int_of_z p.pic_w) (int_of_z p.pic_h) (pic_hex p))
+  (* spec_rel_stream <img-stream-1> <img-stream-2> [scaled] -> eq|alphaeq|diff|none1|none2 *)
+  | "spec_rel_stream" ->
+    let i1 = parse_img t.(1) and i2 = parse_img t.(2) in
+    let dec (i : image) = spec_decode_stream i.hdr.width i.hdr.height (spec_color_of i) i.hdr.depth i.hdr.interlaced i.data in
+    let p1 = if Array.length t > 3 && t.(3) = "scaled" && int_of_z i1.hdr.depth = 16 then
+        (match spec_unfilter i1.hdr.width i1.hdr.height (z_of_int (16 * (match i1.hdr.ctype with Gray _ -> 1 | RGB _ -> 3 | GrayAlpha -> 2 | RGBA -> 4 | Indexed _ -> 1))) i1.hdr.interlaced i1.data with
+         | Some d -> spec_sem_scaled i1.hdr.width i1.hdr.height (spec_color_of i1) i1.hdr.interlaced d
+         | None -> None)
+      else dec i1 in
+    (match p1, dec i2 with
+     | None, _ -> "none1"
+     | _, None -> "none2"
+     | Some p, Some q -> if picture_eqb p q then "eq" else if picture_alpha_equivb p q then "alphaeq" else "diff")
+  (* spec_sem <img> -> 16 hex digits per pixel (rgba, 16 bit each), row-major; spec_rel <img1> <img2> -> eq|alphaeq|diff|none *)
+  | "spec_sem" ->
+    (match sem_of_img (parse_img t.(1)) with
+     | None -> "none"
+     | Some p -> Printf.sprintf "ok %dx%d %s" (int_of_z p.pic_w) (int_of_z p.pic_h) (pic_hex p))
+  | "spec_rel" ->
+    (match sem_of_img (parse_img t.(1)), sem_of_img (parse_img t.(2)) with
+     | Some p, Some q -> if picture_eqb p q then "eq" else if picture_alpha_equivb p q then "alphaeq" else "diff"
+     | _, _ -> "none")
+  (* spec_scaled_rel <img16> <img8>: is sem(img8) = scaled (sem img16)? *)
+  | "spec_scaled_rel" ->
+    let i16 = parse_img t.(1) in
+    (match spec_sem_scaled i16.hdr.width i16.hdr.height (spec_color_of i16) i16.hdr.interlaced i16.data, sem_of_img (parse_img t.(2)) with
+     | Some p, Some q -> if picture_eqb p q then "eq" else "diff"
+     | _, _ -> "none")
   (* spec-side commands (oracle) *)
   | "spec_recon_line" ->
     "ok " ^ hex (spec_recon_line (nat_of_int (int_of_string t.(1))) (zb (int_of_string t.(2))) (unhex t.(3)) (unhex t.(4)))
